@@ -841,7 +841,7 @@ func mAppendBytes(dst mv, add []byte) mv {
 
 // ---- reflect: the read-only view of a value of the model -----------------------------------------------
 // reflect.ValueOf(x) is a symbol that remembers the interface value it describes (dynamic type and payload);
-// Kind / IsValid / IsNil / Interface / Type / Len read it. Anything else on a reflect.Value stays opaque.
+// Kind / IsValid / IsNil / Interface / Type / Len / Int / Uint / Float / Bool / String read it. Anything else on a reflect.Value stays opaque.
 
 func reflectKind(t types.Type) (int64, bool) {
 	switch u := t.Underlying().(type) {
@@ -904,6 +904,16 @@ func (m *mach) reflectModel(method string, args []mv) (mv, bool) {
 	case "Type":
 		if v.rt != nil {
 			return &mSym{name: "reflect.TypeOf(" + v.rt.String() + ")", nonNil: true, rt: v.rt}, true
+		}
+	case "Int", "Uint", "Float", "Bool", "String":
+		// the payload itself, for the kinds the accessor is defined on (a constant or a symbol of the model)
+		k := reflect.Kind(kind)
+		okKind := map[string]bool{"Int": k >= reflect.Int && k <= reflect.Int64, "Uint": k >= reflect.Uint && k <= reflect.Uintptr, "Float": k == reflect.Float32 || k == reflect.Float64, "Bool": k == reflect.Bool, "String": k == reflect.String}[method]
+		if okKind {
+			switch v.rv.(type) {
+			case int64, float64, bool, string, *mSym:
+				return v.rv, true
+			}
 		}
 	case "Len":
 		switch x := v.rv.(type) {
